@@ -77,6 +77,7 @@ func runC05(c *Ctx) *Replay {
 		x.Sched = s
 		x.Reader = readerKinds[(i+c.R.Intn(len(readerKinds)))%len(readerKinds)]
 		x.Writer = writerKinds[c.R.Intn(len(writerKinds))]
+		x.Again = c.R.Chance(1, 3)
 		x.Decoder = []string{"decode", "make"}[c.R.Intn(2)]
 		viol := execHistory(c.N, &x)
 		c.Count("evaluations", 1)
@@ -145,11 +146,26 @@ func execHistory(n *Node, sc *Scenario) *Violation {
 	if sc.Sched != nil {
 		s = *sc.Sched
 	}
-	link := simnet.NewLink(data, s, nil)
-	rw := wrapReader(sc.Reader, link)
 	alloc, steps := budgetsFor(rb.Schema, len(data))
 	simrt.SetMapOrder(simrt.OrderCanonical, 0)
 	defer simrt.SetMapOrder(simrt.OrderNative, 0)
+	if sc.Again && len(bounds) > 0 {
+		// an earlier stream of this receiver ended: decodes of every record type of the
+		// history on a stream with nothing (left) in it, and on one that is cut short; what
+		// they return is their business, what they leave behind must not touch what follows
+		for i := range bounds {
+			if t, _, err := n.typeOf(rb, sc.Types[i]); err == nil {
+				for _, pre := range [][]byte{nil, data[:bounds[i]/2]} {
+					l0 := simnet.NewLink(pre, simnet.Schedule{}, nil)
+					r0 := wrapReader(sc.Reader, l0)
+					rec := t.New()
+					safeCall(alloc, steps, func() { _ = rec.DecodeBebop(r0.r) })
+				}
+			}
+		}
+	}
+	link := simnet.NewLink(data, s, nil)
+	rw := wrapReader(sc.Reader, link)
 	for i := range bounds {
 		typ := sc.Types[i]
 		t, _, err := n.typeOf(rb, typ)
@@ -389,6 +405,9 @@ func runC06(c *Ctx) *Replay {
 				sc.Sched = chunked
 				sc.Reader = reader
 				sc.RFault = &simnet.ReadFault{At: k, Err: errName, Partial: k%2 == 1}
+				if k%5 == 3 {
+					sc.Reader, sc.RFault = "limited-cut", nil
+				}
 			}
 			viol := execTruncate(c.N, &sc)
 			c.Count("evaluations", 1)
@@ -528,7 +547,18 @@ func execTruncate(n *Node, sc *Scenario) *Violation {
 		}
 		defer func() { n.prefill = nil }()
 	}
-	if isStreamDecoder(sc.Decoder) {
+	if isStreamDecoder(sc.Decoder) && sc.Reader == "limited-cut" {
+		// the prefix is a frame the caller cut out of a longer stream with an
+		// *io.LimitedReader: the stream itself goes on behind the limit
+		longer := append(append([]byte(nil), data...), 0x01, 0x00, 0x00, 0x00, 0x01, 0xEE, 0xEE, 0xEE)
+		do = n.decode(rb, sc.Type, sc.Decoder, longer, sc.Sched, nil, fmt.Sprintf("limited-cut:%d", k), k)
+		if !do.NoSuch && do.Link != nil && do.Link.Pos > k && do.Call.Panicked == false && do.Err != nil {
+			// an error is reported, but bytes beyond the caller's limit were taken
+			return &Violation{Class: "overread", Signature: "overread|truncate-limited|" + kind,
+				Detail: fmt.Sprintf("%s of a frame limited to %d bytes took %d bytes from the stream under the caller's io.LimitedReader", sc.Decoder, k, do.Link.Pos),
+				Facts:  map[string]string{"op": sc.Decoder, "record_kind": kind}}
+		}
+	} else if isStreamDecoder(sc.Decoder) {
 		rf := &simnet.ReadFault{At: k, Err: "eof"}
 		if sc.RFault != nil {
 			rf = &simnet.ReadFault{At: k, Err: sc.RFault.Err, Partial: sc.RFault.Partial}
@@ -696,7 +726,13 @@ func runC08(c *Ctx) *Replay {
 				fk = "read-partial"
 			case 2:
 				sc.RFault.Transient = true
+				// a SHORT read with the error (fewer bytes than asked), after which the stream
+				// goes on as if nothing had happened
+				sc.RFault.Partial = c.R.Bool()
 				sc.Sched = chunked
+				if sc.RFault.Partial && c.R.Bool() {
+					sc.Sched = &simnet.Schedule{Name: "all"}
+				}
 				fk = "read-transient"
 			}
 			viol := execRFault(c.N, &sc)
